@@ -7,12 +7,20 @@ SJ_VERIFY_LOOP = {"secp256k1_surjectionproof_verify": {"for (i = 0; i < n_used_p
     "assigns": "i, __CPROVER_object_whole(borromean_s)",
     "invariants": "i <= n_used_pubkeys && (verif_sj_bad ==> i <= verif_sj_gi) && (verif_sj_gi < i ==> (borromean_s[verif_sj_gi].d[0] == verif_sj_sx.d[0] && borromean_s[verif_sj_gi].d[1] == verif_sj_sx.d[1] && borromean_s[verif_sj_gi].d[2] == verif_sj_sx.d[2] && borromean_s[verif_sj_gi].d[3] == verif_sj_sx.d[3]))",
     "decreases": "n_used_pubkeys - i"}}}
+def _limbs(a, b, fes):
+    return " && ".join("%s.%s.n[%d] == %s.%s.n[%d]" % (a, f, k, b, f, k) for f in fes for k in range(5)) + " && %s.infinity == %s.infinity" % (a, b)
+PK_WATCH = "(g_el_i < j ==> (g_aj_seen == 1 && g_aj_roff == g_el_i * 128 && " + _limbs("g_aj_a", "verif_sj_ea", "xyz") + " && " + _limbs("g_aj_b", "verif_sj_eb", "xy") + "))"
 def pk_loop(ring):
     return {"secp256k1_surjection_compute_public_keys": {"for (i = 0; i < n_input_tags; i++)": {
         "assigns": "i, j, __CPROVER_object_whole(pubkeys), " + ("*ring_input_index, " if ring else "") + "g_aj_n, g_aj_roff, g_aj_a, g_aj_b, g_aj_seen",
-        "invariants": "i <= n_input_tags && j == verif_sj_rank[i] && g_aj_n == j && j <= n_pubkeys && (g_el_i < j ==> g_aj_seen == 1) && (g_el_i >= j ==> g_aj_seen == 0)"
+        "invariants": "i <= n_input_tags && j == verif_sj_rank[i] && g_aj_n == j && j <= n_pubkeys && " + PK_WATCH + " && (g_el_i >= j ==> g_aj_seen == 0)"
             + (" && ((input_index < i && ((used_tags[input_index / 8] >> (input_index % 8)) & 1)) ==> *ring_input_index == verif_sj_rank[input_index])" if ring else ""),
         "decreases": "n_input_tags - i"}}}
+HASH = ["secp256k1_sha256_write", "secp256k1_sha256_finalize"]
+GM_LOOP = {"secp256k1_surjection_genmessage": {"for (i = 0; i < n_input_tags; i++)": {
+    "assigns": "i, __CPROVER_object_whole(pk_ser), sha256_en, g_h_fresh, g_w_hit, g_w_byte, g_w_started, g_w_s0, g_w_s7, g_w_b0",
+    "invariants": "i <= n_input_tags && sha256_en.bytes == 33 * (unsigned long)i && g_fin_n == 0 && (i == 0 ==> (g_h_fresh == 1 && g_w_started == 0 && g_w_hit == 0 && sha256_en.s[0] == 0x6a09e667 && sha256_en.s[7] == 0x5be0cd19)) && (i > 0 ==> (g_h_fresh == 0 && g_w_started == 1 && g_w_b0 == 0 && g_w_s0 == 0x6a09e667 && g_w_s7 == 0x5be0cd19)) && (g_wpos < sha256_en.bytes ==> (g_w_hit == 1 && g_w_byte == verif_sj_expect)) && (g_wpos >= sha256_en.bytes ==> g_w_hit == 0)",
+    "decreases": "n_input_tags - i"}}}
 UNITS = [
     U("C11.parse", ["C11", "C07"], "harness/C11/parse.c", "h_sjp_parse", replace=["memcpy", CB],
       functions=["secp256k1_surjectionproof_parse"], timeout=900, min_obl=20, unwind=34,
@@ -40,6 +48,10 @@ UNITS = [
       timeout=1800, min_obl=30, unwind=258,
       closed_by="loop contract over the n tags (engine-supplied, no /repo edit): ring position = prefix bit count (harness table), decreases clause; harness table loops unwound",
       note="every n <= 256, every padding-free bitmap; pubkeys is an exact-size heap object so any write beyond n_used is a bounds violation"),
+    U("C11.genmessage", ["C11", "C07"], "harness/C11/genmessage.c", "h_sjp_genmessage", replace=HASH,
+      loop_contracts=GM_LOOP, functions=["secp256k1_surjection_genmessage"], timeout=1800, min_obl=30, unwind=34,
+      closed_by="loop contract over the n tags (engine-supplied, no /repo edit): stream length 33 i and the watched stream byte as invariant, decreases clause",
+      note="every list length 0..256; stream-level hash contract (hash_log.h)"),
     U("C11.verify_gate_b8", ["C11", "C07"], VER, "h_sjp_verify", replace=VER_REPL, assumed=["secp256k1_borromean_verify"], defs=["EL_BOUND=8"],
       functions=VER_FUNCS, timeout=900, min_obl=30, unwind=34, bounded="n_inputs<=8",
       note="scalar loop unwound for proofs over at most 8 inputs: concrete counterexample (ring position, bytes) when a gate is broken"),
